@@ -37,8 +37,10 @@
  *           TOL = 16*eps*sum|terms|.  A-priori bound of the double evaluation: at most 5 roundings per term (gamma_5 = 2.5 eps)
  *           for the PID forms, 7 for the neuron output (3.5 eps), 4 for a weight update (2 eps): TOL has >= 4.5x head-room over
  *           the proof bound, the worst observed ratio is reported through VF_MAX.
- *           fuzzy gains on semi-exact steps: |K - ref| <= 4 eps (|base|+|delta|) + 16 eps * (max-min of the active consequents)
- *           (1/W, *, + : 1.5 eps relative; the second term covers the <= 1.5 eps relative error of the sqrt based operator).
+ *           fuzzy gains on semi-exact steps: |K - ref| <= (n+4) eps (|base| + max|consequent of a firing rule|), n = number of
+ *           firing rules: a-priori bound of an n-term inner product with weights that carry <= 1.5 eps relative error (sqrt based
+ *           operator), one reciprocal, one product, one sum is (n+3) eps/2 of that scale, so the head-room is >= 2x the proof
+ *           bound; the worst observed ratio is reported through VF_MAX.
  *
  * Genuine-defect candidates this harness is expected to report on the unchanged tree (own stable keys, not worked around):
  *   pid_fuzzy/state-not-finite/all-joint-memberships-zero   bounded product: every J_ij = 0 -> 1/0 -> NaN gains/integrator
@@ -131,6 +133,8 @@ static qstep ref_pid(qst const *p, int mode, q_t kp, q_t ki, q_t kd, lim_t const
         else if (o.inc != 0) { o.inhibited = 1; }
         o.raw = kp * e + o.s.sum + kd * v;
         o.mag_out = qabs(kp * e) + qabs(o.s.sum) + qabs(kd * v);
+        /* the stored S(k) carries the rounding of S(k-1) + Ki*e, which is relative to |S(k-1)| + |Ki e|, not to |S(k)| (cancellation) */
+        if (o.integrated) { o.mag_out += o.mag_sum; }
     }
     else
     {
@@ -496,10 +500,11 @@ static void gen_limits(vf_rng *r, int scen, int exact, double R, lim_t *l)
     }
     if (!exact)
     {
-        if (omax < big && omax > 1e6) { omax = 1e6; }
-        if (omin > -big && omin < -1e6) { omin = -1e6; }
-        if (smax < big && smax > 1e6) { smax = 1e6; }
-        if (smin > -big && smin < -1e6) { smin = -1e6; }
+        /* finite limits stay within the magnitude bound 1e6 of the real regime */
+        if (omax != big) { omax = omax > 1e6 ? 1e6 : omax < -1e6 ? -1e6 : omax; }
+        if (omin != -big) { omin = omin > 1e6 ? 1e6 : omin < -1e6 ? -1e6 : omin; }
+        if (smax != big && smax > 1e6) { smax = 1e6; }
+        if (smin != -big && smin < -1e6) { smin = -1e6; }
     }
     else
     {
@@ -1012,7 +1017,7 @@ typedef struct
 {
     q_t dk[3];     /* gain offsets */
     q_t W;         /* sum of joint memberships */
-    q_t crange[3]; /* spread of the active consequents */
+    q_t cabs[3];   /* largest |consequent| among the firing rules */
     unsigned ne, nec;
     int exact;     /* the library's double evaluation is exact */
     int wzero;     /* sets fire but every joint membership is zero */
@@ -1035,7 +1040,7 @@ static fzgain ref_fuzzy_gains(fz_t const *f, double e, double ec)
     G.exact = 1;
     if (!G.ne || !G.nec) { return G; }
     {
-        q_t N[3] = {0, 0, 0}, cmin[3], cmax[3];
+        q_t N[3] = {0, 0, 0};
         for (i = 0; i < G.ne; ++i)
         {
             for (j = 0; j < G.nec; ++j)
@@ -1046,13 +1051,12 @@ static fzgain ref_fuzzy_gains(fz_t const *f, double e, double ec)
                 {
                     q_t const cq = f->mk[g] ? (q_t)f->mk[g][ie[i] * f->n + ic[j]] : 0;
                     N[g] += J * cq;
-                    if ((i == 0 && j == 0) || cq < cmin[g]) { cmin[g] = cq; }
-                    if ((i == 0 && j == 0) || cq > cmax[g]) { cmax[g] = cq; }
+                    if (qabs(cq) > G.cabs[g]) { G.cabs[g] = qabs(cq); }
                 }
             }
         }
         if (G.W == 0) { G.wzero = 1; return G; }
-        for (int g = 0; g < 3; ++g) { G.dk[g] = N[g] / G.W; G.crange[g] = cmax[g] - cmin[g]; }
+        for (int g = 0; g < 3; ++g) { G.dk[g] = N[g] / G.W; }
         G.exact = is_pow2_q(G.W) && (f->opr != A_PID_FUZZY_EQU || all_one);
     }
     return G;
@@ -1262,7 +1266,7 @@ static void case_fuzzy(vf_rng *r, uint64_t q, int exact)
                 }
                 else
                 {
-                    q_t const tol = 4 * (q_t)EPS * (qabs(f.base[gi]) + qabs(G.dk[gi])) + 16 * (q_t)EPS * G.crange[gi] + 0x1p-1000Q;
+                    q_t const tol = (q_t)(G.ne * G.nec + 4) * EPS * (qabs(f.base[gi]) + G.cabs[gi]) + 0x1p-1000Q;
                     q_t const err = qabs((q_t)got[gi] - kq[gi]);
                     VF_COUNT("fuzzy-gains-within-tolerance");
                     VF_MAX("fuzzy-gain-error/tolerance", (double)(err / tol));
@@ -1365,6 +1369,10 @@ static void case_neuro(vf_rng *r, int exact)
         do { for (i = 0; i < 3; ++i) { n.w[i] = vf_chance(r, 1, 4) ? 0.0 : vf_sign(r) * vf_logu(r, -3, 2); } } while (n.w[0] == 0 && n.w[1] == 0 && n.w[2] == 0);
     }
     gen_limits(r, ls, exact, R * fabs(n.k), &lim);
+    /* no +-DBL_MAX "unlimited" output here: when all three weights are 0 the documented quotient is 0/0 and the controller parks the output
+       at outmin; with outmin = -DBL_MAX the next weight update eta*e*u*x overflows, which the quantifier excludes */
+    if (lim.outmax > 0x1p30) { lim.outmax = exact ? 0x1p30 : 1e6; }
+    if (lim.outmin < -0x1p30) { lim.outmin = exact ? -0x1p30 : -1e6; }
     gen_init(&g, r, gc, exact, R, L);
     vf_log("a_pid_neuro, %s inputs: K=%a eta_p=%a eta_i=%a eta_d=%a wp=%a wi=%a wd=%a outmax=%a outmin=%a (limits: %s), %u steps, input=%s amplitude=%a", exact ? "integer" : "real", n.k,
            n.eta[0], n.eta[1], n.eta[2], n.w[0], n.w[1], n.w[2], lim.outmax, lim.outmin, LS_NAME[ls], L, G_NAME[gc], R);
@@ -1532,7 +1540,7 @@ static void case_neuro(vf_rng *r, int exact)
 }
 
 /* ------------------------------------------------------------------ plan */
-static uint64_t vf_ncases(int tier) { return tier ? 400000 : 6000; }
+static uint64_t vf_ncases(int tier) { return tier ? 480000 : 24000; }
 
 static void vf_case(uint64_t c, vf_rng *r)
 {
